@@ -117,7 +117,7 @@ def finish(prop, a, results, units, world, t0, seed, run_harness, extra=None):
     # obligations covered by an open known finding are reported separately: they are not claimed
     n_known = sum(1 for o in obligations if o.get("known_finding"))
     n_bounded = sum(1 for o in obligations if o.get("bounded"))       # bounded stand-ins are never counted as proved
-    n_ob = len(obligations) - n_known - n_bounded
+    n_ob = sum(1 for o in obligations if not o.get("known_finding") and not o.get("bounded"))
     n_dis = sum(1 for o in obligations if o["status"] == "discharged" and not o.get("bounded"))
     if n_ob == 0 and code == 0:
         print("CHECKER-ERROR: zero obligations generated for %s (vacuity alarm)" % prop)
